@@ -1232,8 +1232,42 @@ pub fn term_line(input: &[u8], o: Opts) -> String {
     }
 }
 
+/// `termx <hex> e m v k <v2> => …` : the rendering of this symbol AFTER it was rendered once on this thread and a
+/// symbol of version `v2` was rendered on another thread in between (the text depends on the QR code only)
+pub fn termx_line(input: &[u8], o: Opts, v2: usize) -> String {
+    let r = build(input, o);
+    let head = format!("termx {} {} {} {} {} {} => ", hex(input), opt(o.ecl), opt(o.mode), opt(o.version), opt(o.mask), v2);
+    let other = build(b"7", Opts { ecl: Some(0), mode: None, version: Some(v2), mask: None });
+    match (&r, other) {
+        (Outcome::Ok(q), Outcome::Ok(q_other)) => {
+            let q2 = q.clone();
+            let res = std::thread::spawn(move || {
+                let _ = q2.to_str();
+                let _ = std::thread::spawn(move || q_other.to_str()).join();
+                q2.to_str()
+            })
+            .join();
+            match res {
+                Ok(s) => format!("{}ok {} {} {}", head, q.size, matrix_hex(q), hex(s.as_bytes())),
+                Err(_) => format!("{}trap", head),
+            }
+        }
+        _ => format!("{}nobuild {}", head, outcome_short(&r)),
+    }
+}
+
 fn gen_c16(out: &mut Out, rng: &mut Rng, thorough: bool) {
     let caps = caps();
+    for v in 0..40usize {
+        if !thorough && v % 4 != 0 { continue; }
+        let e = rng.below(4);
+        let md = rng.below(3);
+        let len = rng.range(0, caps[md][e][v]);
+        let inp = content(rng, md, len);
+        let o = Opts { ecl: Some(e), mode: Some(md), version: Some(v), mask: None };
+        let v2 = (v + 1 + rng.below(39)) % 40;
+        out.job(move || termx_line(&inp, o, v2));
+    }
     // sizes in a scrambled order: every worker thread renders larger and smaller symbols alternately, so
     // state carried from one render to the next would show
     let reps = if thorough { 50 } else { 3 };
